@@ -324,7 +324,8 @@ def chunk_safe(path: bytes):
 # every path here is chunk-safe: histories drop/duplicate single records, and each record must stay valid text
 PATHS = [b'/', b'/usr/lib/dyld', b'/System/Library/CoreServices/WiFiAgent.app/Contents/_CodeSignature', b'a', b'',
          b'/private/var/db/caf\xc3\xa9/xy\xe6\x97\xa5\xe6\x9c\xac.plist', b'x' * 24, b'y' * 25, b'z' * 56, b'w' * 57,
-         b'/Users/u/Library/Application Support/com.example.app/Cache.db-wal/longer/than/eighty-eight/bytes/of/path']
+         b'/Users/u/Library/Application Support/com.example.app/Cache.db-wal/longer/than/eighty-eight/bytes/of/path',
+         '/Applications/Cafe\u0301.app/\u212b'.encode(), '/tmp/\U0001f34e/\ufb01le'.encode()]
 assert all(chunk_safe(p) for p in PATHS)
 
 ONE_PATH_CALLS = ['BSC_open', 'BSC_stat64', 'BSC_access', 'BSC_unlink', 'BSC_chdir', 'BSC_mkdir', 'BSC_openat',
